@@ -104,8 +104,8 @@ def call(shape, style, runner, vals):
         per_site = {}
         for _, args in CALLS:
             per_site[id(args[0]) if args else None] = per_site.get(id(args[0]) if args else None, 0) + 1
-        if not CALLS or max(per_site.values()) != 1:
-            return False, f"{where}: a call site was reached {sorted(per_site.values())} times (each at most once, the first operand's exactly once)"
+        if max(per_site.values(), default=0) > 1:
+            return False, f"{where}: a call site was reached {sorted(per_site.values())} times (each at most once)"
     if shape in ("global1", "global2", "global3", "method1", "method2", "method3"):
         args = CALLS[-1][1]
         if [int(a) for a in args] != [vals[n] for n in names] or any(type(a).__name__ != "IntType" for a in args):
